@@ -173,11 +173,58 @@ Lemma contains_cons sub c s : contains sub s = true -> contains sub (c :: s) = t
 Proof. intro H. simpl. rewrite H. apply orb_true_r. Qed.
 
 Theorem java_lines_dropped msg x : In x (clean_lines msg) ->
-  exists l, In l (cleanup_errors msg) /\ contains s_java_colon l = false /\ contains s_tab_at l = false
+  exists l, In l (cleanup_errors msg) /\ contains s_java_colon l = false /\ contains s_tab_at l = false /\ is_elided_frames l = false
             /\ remove_java_content l = Some x.
 Proof.
   unfold clean_lines. intro H. apply in_flat_map in H as (l & Hl & Hx).
   exists l. split; [exact Hl|]. unfold remove_java_content in *.
   destruct (contains s_java_colon l) eqn:E1; [destruct Hx|]. destruct (contains s_tab_at l) eqn:E2; [destruct Hx|].
-  simpl in Hx. destruct Hx as [<-|[]]. repeat split; reflexivity.
+  destruct (is_elided_frames l) eqn:E3; [destruct Hx|].
+  cbn [orb] in Hx. destruct Hx as [<-|[]]. repeat split; reflexivity.
 Qed.
+(* what counts as the tail of a stack trace: "... " + ASCII digits + " more", white space around it ignored *)
+Example elided_frames_examples :
+  is_elided_frames [9;46;46;46;32;49;50;32;109;111;114;101]%N = true            (* TAB ... 12 more *)
+  /\ is_elided_frames [46;46;46;32;109;111;114;101]%N = false                   (* ... more *)
+  /\ is_elided_frames [46;46;46;32;32;109;111;114;101]%N = false                (* ...  more *)
+  /\ is_elided_frames [46;46;46;32;49;32;109;111;114;101;32]%N = true           (* ... 1 more, trailing space *)
+  /\ is_elided_frames [115;101;101;32;46;46;46;32;50;32;109;111;114;101]%N = false.   (* see ... 2 more *)
+Proof. vm_compute. repeat split; reflexivity. Qed.
+
+(* ---- instance paths: every question name without a dot is ONE path segment, whatever alphabet it is written in ---- *)
+Require Import PX.Model.Names.
+Lemma span_snd_nil p : forall (s : str), snd (span p s) = [] -> forallb p s = true.
+Proof.
+  induction s as [|c r IH]; [reflexivity|]. cbn [span]. destruct (p c) eqn:E.
+  - destruct (span p r) as [a b] eqn:Er. cbn [snd] in *. intro H. cbn [forallb]. rewrite E. exact (IH H).
+  - cbn [snd]. discriminate.
+Qed.
+Theorem name_is_one_segment n : is_xml_tag n = true -> nochar 46%N n = true -> nochar COLON n = true -> n <> [] /\ forallb segc n = true.
+Proof.
+  unfold is_xml_tag, eat_ncname. destruct n as [|c r]; [discriminate|]. destruct (nsc c) eqn:Ec; [|discriminate].
+  intros H Hd Hc. split; [discriminate|].
+  assert (Hr : snd (span nch r) = []).
+  { destruct (snd (span nch r)) as [|x rest] eqn:E; [reflexivity|]. exfalso.
+    (* a remainder after the first name would have to start with the colon, which the name does not hold *)
+    destruct (N.eqb x COLON) eqn:Ex; [|discriminate].
+    apply N.eqb_eq in Ex. subst x.
+    assert (Hin : In COLON r).
+    { clear -E. revert E. induction r as [|y r IH]; cbn [span snd]; [discriminate|]. destruct (nch y).
+      - destruct (span nch r) as [a b]. cbn [snd]. intro E. right. exact (IH E).
+      - cbn [snd]. intro E. injection E as -> _. left. reflexivity. }
+    unfold nochar in Hc. cbn [forallb] in Hc. apply andb_true_iff in Hc as [_ Hc]. rewrite forallb_forall in Hc.
+    specialize (Hc COLON Hin). unfold ceq in Hc. rewrite N.eqb_refl in Hc. discriminate. }
+  pose proof (span_snd_nil nch r Hr) as Hall.
+  unfold nochar in Hd. cbn [forallb] in Hd |- *. apply andb_true_iff in Hd as [Hd1 Hd2].
+  apply andb_true_iff. split.
+  - unfold segc, nch. rewrite Ec. cbn [orb andb]. unfold ceq in Hd1. exact Hd1.
+  - clear -Hall Hd2. induction r as [|y r IH]; [reflexivity|]. cbn [forallb] in *.
+    apply andb_true_iff in Hall as [H1 H2]. apply andb_true_iff in Hd2 as [D1 D2]. apply andb_true_iff. split; [|exact (IH D2 H2)].
+    unfold segc. rewrite H1. cbn [andb]. unfold ceq in D1. exact D1.
+Qed.
+Example segment_examples :
+  (* /data/größe  and  /data/日本/名前  are tokens as a whole; a dot ends a segment *)
+  sub_paths 30 [47;100;97;116;97;47;103;114;246;223;101]%N = [36;123;103;114;246;223;101;125]%N
+  /\ sub_paths 30 [47;100;47;26085;26412;47;21517;21069;46]%N = [36;123;21517;21069;125;46]%N
+  /\ sub_paths 30 [47;100;97;116;97;47;97;46;98]%N = [36;123;97;125;46;98]%N.
+Proof. vm_compute. repeat split; reflexivity. Qed.
